@@ -186,6 +186,7 @@ Definition decode_eop (id : Z) (args : list Z) (b : list bytes) : eop :=
   else if id =? 101 then ESprExit
   else if id =? 102 then ELatency (hd 0 args)
   else if id =? 103 then EIdle (hd 0 args)
+  else if id =? 104 then EIdle 0        (* harness marker (the application reuses its argument objects): nothing happens *)
   else ECall (decode_call id args b).
 
 Fixpoint decode_calls (n : nat) (a : list Z) (b : list bytes) : list eop :=
